@@ -32,6 +32,7 @@ type faultWriter struct {
 	accepted []byte
 	calls    int // Write calls seen so far
 	firstBad int // index of the first call that returned an error, -1 if none
+	atFail   int // bytes accepted up to and including the first failed call
 	afterBad int // Write calls made after the first failed call
 	fails    int // calls that returned an error
 	tripped  bool
@@ -44,6 +45,7 @@ func newFaultWriter(p Plan, sizeHint int) *faultWriter {
 func (w *faultWriter) fail(n int) (int, error) {
 	if w.firstBad < 0 {
 		w.firstBad = w.calls - 1
+		w.atFail = len(w.accepted)
 	}
 	w.fails++
 	return n, ErrInjected
